@@ -49,6 +49,7 @@ impl Prop for C09 {
     fn strategy(&self, _tier: Tier) -> BoxedStrategy<Case> {
         prop_oneof![
             6 => arb_d().prop_map(|x| Case::Dec { x }),
+            1 => (arb_word_coeff(), arb_scale()).prop_map(|(c, s)| Case::Dec { x: D::new(c, s) }),
             // gcd stress: 2^a * 5^b * m with the scale chosen around a, b
             4 => (0u32..=126, 0u32..=54, 1i128..=999, 0u8..=18, any::<bool>()).prop_map(|(a, b, m, s, neg)| {
                 let mut v: i128 = m;
